@@ -34,6 +34,7 @@ type Scope struct {
 
 	cid        string
 	closed     bool
+	closing    bool
 	closeStack string
 	mu         sync.Mutex
 	parent     app.Scope
@@ -116,9 +117,12 @@ func (scp *Scope) Close() (err error) {
 	defer scp.mu.Unlock()
 	scp.preventDoubleClosed()
 	scp.closeStack = string(debug.Stack())
-	scp.closed = true
+	scp.closing = true
 	scp.appendError(scp.EventScope.Trigger(app.BeforeCloseEvent, scp))
-	if err = scp.Wait(); err != nil {
+	// the scope accepts errors (and kill/stop) from its tasks until they are all done
+	err = scp.Wait()
+	scp.closed = true
+	if err != nil {
 		scp.appendError(scp.EventScope.Trigger(app.BeforeRollbackEvent, scp))
 		scp.appendError(scp.EventScope.Trigger(app.RollbackEvent, scp))
 		scp.appendError(scp.EventScope.Trigger(app.AfterRollbackEvent, scp))
@@ -144,7 +148,7 @@ func (scp *Scope) close() {
 }
 
 func (scp *Scope) preventDoubleClosed() {
-	if scp.closed {
+	if scp.closing {
 		panic(goaterr.Errorf("scope [%s] is closed at:\n%s\nAND AT:\n %s\n\n", scp.sid, scp.closeStack, string(debug.Stack())))
 	}
 }
